@@ -1060,7 +1060,7 @@ Section Faithful.
     assert (E2 : map fst (map reflect_class cs) = map (fun p => class_name (dotted p)) (map fst L)).
     { rewrite !map_map. apply (Forall2_map_eq (fun pm => class_name (dotted (fst pm))) (fun c => fst (reflect_class c))).
       eapply Forall2_impl; [|exact F]. cbn. tauto. }
-    rewrite E1, E2. exact Hcn.
+    unfold py_class in *. rewrite E1, E2. exact Hcn.
   Qed.
 
   (* ---- the whole request ---- *)
@@ -1106,3 +1106,69 @@ Proof.
   repeat match goal with H : _ && _ = true |- _ => apply andb_prop in H as [? ?] end.
   apply faithful_section; assumption.
 Qed.
+
+(* ======================================================================================
+   Part 5 — the is_map heuristic against the specification's reading
+   ====================================================================================== *)
+Theorem is_map_no_false_negative D f p m x :
+  protoc_wf D = true -> In f D -> In (p, m) (file_msgs f) -> In x (md_fields m) ->
+  spec_is_map (fl_package f) p m x = true -> is_map x m = true.
+Proof.
+  intros Hwf Hf Hm Hx Hs. unfold spec_is_map in Hs.
+  destruct (spec_map_entry (fl_package f) p m x) as [e|] eqn:E; [|discriminate].
+  destruct (wf_msg_parts D _ _ _ (wf_msg D Hwf f p m Hf Hm)) as (_ & Hfw & _).
+  eapply (is_map_complete D); eauto. eapply nested_ident; eauto.
+Qed.
+
+Theorem is_map_exact D f p m x :
+  protoc_wf D = true -> map_keys_ok D = true ->
+  In f D -> In (p, m) (file_msgs f) -> In x (md_fields m) ->
+  is_map x m = spec_is_map (fl_package f) p m x.
+Proof.
+  intros Hwf Hmk Hf Hm Hx.
+  destruct (spec_is_map (fl_package f) p m x) eqn:Hs.
+  - eapply is_map_no_false_negative; eauto.
+  - unfold map_keys_ok in Hmk. rewrite forallb_forall in Hmk. specialize (Hmk f Hf).
+    rewrite forallb_forall in Hmk. specialize (Hmk (p, m) Hm). unfold map_keys_ok_msg in Hmk. cbn [fst snd] in Hmk.
+    rewrite forallb_forall in Hmk. specialize (Hmk x Hx). unfold spec_is_map in Hs.
+    destruct (spec_map_entry (fl_package f) p m x); [discriminate|]. now apply negb_true_iff in Hmk.
+Qed.
+
+(* the package regex, for every type of a protoc_wf descriptor set under the naming side condition *)
+Theorem type_name_split D tn s :
+  protoc_wf D = true -> pkg_names_ok D = true -> resolve D tn = Some s ->
+  parse_source_type_name tn = (sym_pkg s, dotted (sym_path s)).
+Proof. intros. eapply ref_ok; eauto. Qed.
+
+(* ======================================================================================
+   Part 6 — bundled descriptor libraries against descriptor.proto / plugin.proto (finite sweep)
+   ====================================================================================== *)
+Definition brow_number (r : brow) : Z := let '(_, n, _, _, _) := r in n.
+Definition brow_agree (x y : brow) : bool :=
+  let '(xn, _, xt, xr, xg) := x in
+  let '(yn, _, yt, yr, yg) := y in
+  (* a bundled field is named like the reference field (a trailing _ is added to Python keywords) *)
+  (str_eqb xn yn || str_eqb xn (yn ++ [c_us])) && str_eqb xt yt && Bool.eqb xr yr && str_eqb xg yg.
+
+(* every field number the bundled class shares with the reference message carries the same name,
+   proto type, repeatedness and oneof group *)
+Definition agree_on_shared_numbers (e : str * str * list brow * list brow) : bool :=
+  let '(_, _, bundled, reference) := e in
+  forallb (fun x => match find (fun y => brow_number y =? brow_number x) reference with
+                    | Some y => brow_agree x y
+                    | None => true
+                    end) bundled.
+
+Definition ends_with (suffix s : str) : bool :=
+  match prefix_of (rev suffix) (rev s) with Some _ => true | None => false end.
+
+(* every member name the bundled enum shares with the reference enum (the plugin strips the enum-name
+   prefix) carries the same number *)
+Definition enum_agree_on_shared_names (e : str * str * list (str * Z) * list (str * Z)) : bool :=
+  let '(_, _, bundled, reference) := e in
+  forallb (fun x => forallb (fun y => negb (str_eqb (fst y) (fst x) || ends_with (c_us :: fst x) (fst y))
+                                      || (snd x =? snd y)) reference) bundled.
+
+Definition shared_numbers (e : str * str * list brow * list brow) : Z :=
+  let '(_, _, bundled, reference) := e in
+  Zlength (filter (fun x => existsb (fun y => brow_number y =? brow_number x) reference) bundled).
